@@ -23,6 +23,7 @@ func checkC18(c *chk.Ctx) {
 		"R18b a shard's hash range is only written when the shard is created (or cloned)",
 		"R18c producers map Min->MinHashInclusive and Max->MaxHashInclusive, the client maps them to MinInclusive/MaxInclusive, and both client predicates (membership, overlap) agree with the inclusive-range truth table for every ordering of their operands; every non-deleting shard is published",
 		"R18d the only routing hash is the client strategy's xxhash3-32, and both producers advertise that router",
+		"R18g a cluster status built from an existing one (a literal that copies any field of another status) also copies its shard id generator: no derived status restarts the ids at zero",
 		"R18f a new namespace gets a shard for every generated range (open finding F19: a failed ensemble selection skips the shard but still creates the namespace)",
 	}
 	c.NotDec = []string{
@@ -34,6 +35,7 @@ func checkC18(c *chk.Ctx) {
 	ruleR18c(h)
 	ruleR18d(h)
 	ruleR18f(h)
+	ruleR18g(h)
 }
 
 func ruleR18a(h *H) {
@@ -546,4 +548,69 @@ func isLenOf(v ssa.Value, g ssa.CallInstruction) bool {
 	}
 	gv, _ := g.(ssa.Value)
 	return gv != nil && ir.Canon(c.Call.Args[0]) == gv
+}
+
+// ruleR18g: a ClusterStatus literal that takes anything from an existing status must
+// carry that status's ShardIdGenerator over. A derived status without it is stored with
+// generator 0 and the next namespace is given ids that live shards already use.
+func ruleR18g(h *H) {
+	const rule = "R18g"
+	h.Rule(rule, "K3", "every ClusterStatus composite literal in which some field is initialised from a field of another ClusterStatus also initialises ShardIdGenerator from a ClusterStatus.ShardIdGenerator", 2)
+	n := 0
+	for _, fn := range h.P.Funcs {
+		if !ir.InRepo(fn) {
+			continue
+		}
+		idx := 0
+		ir.Instrs(fn, func(in ssa.Instruction) {
+			al, ok := in.(*ssa.Alloc)
+			if !ok || !ir.TypeIs(al.Type(), "coordinator/model", "ClusterStatus") || al.Referrers() == nil {
+				return
+			}
+			fromStatus := func(v ssa.Value) bool {
+				return ir.DependsOn(v, func(x ssa.Value) bool {
+					r, ok := ir.FieldLoadOf(x)
+					return ok && r.Struct != nil && r.Struct.Obj().Name() == "ClusterStatus" && r.Struct.Obj().Pkg() != nil && strings.HasSuffix(r.Struct.Obj().Pkg().Path(), "coordinator/model") && ir.Canon(r.Base) != ssa.Value(al)
+				})
+			}
+			derived, hasGen, any := "", false, false
+			for _, r := range *al.Referrers() {
+				fa, ok := r.(*ssa.FieldAddr)
+				if !ok || fa.Referrers() == nil {
+					continue
+				}
+				ref, ok := ir.FieldAddrOf(fa)
+				if !ok {
+					continue
+				}
+				for _, rr := range *fa.Referrers() {
+					st, ok := rr.(*ssa.Store)
+					if !ok || st.Addr != fa {
+						continue
+					}
+					any = true
+					if ref.Field == "ShardIdGenerator" {
+						if ir.LoadsField(st.Val, "coordinator/model", "ClusterStatus", "ShardIdGenerator") {
+							hasGen = true
+						}
+						continue
+					}
+					if fromStatus(st.Val) {
+						derived = ref.Field
+					}
+				}
+			}
+			if !any || derived == "" {
+				return
+			}
+			n++
+			idx++
+			h.Fn(ir.FuncName(fn))
+			h.Verdict(hasGen, rule, fmt.Sprintf("derived cluster status #%d in %s", idx, ir.FuncName(fn)), h.pos(in), "copies the shard id generator of the status it is derived from",
+				"this status takes "+derived+" from an existing status but not its ShardIdGenerator: once it is stored the generator restarts at 0 and new namespaces are given shard ids that are still in use")
+		})
+	}
+	if n == 0 {
+		h.Anchor(rule, "ClusterStatus literals derived from an existing status")
+	}
 }
